@@ -49,6 +49,16 @@ def tree_with_long_functions(rng):
     for i, (rel, data) in enumerate(sorted(files.items())):
         ext = os.path.splitext(rel)[1]
         lang = LANG_OF_EXT.get(ext)
+        if lang is None and ext in (".h", ".hh", ".hpp", ".hxx", ".cc", ".cxx", ".mjs", ".cjs", ".pyw", ".pyi"):
+            # other extensions of the supported languages; headers get content that a content-based lexer guess would read as
+            # Objective-C (Doxygen @endcode, @protocol, @"...", no #include) - the language must follow from the NAME alone
+            base_lang = S.language_of(rel.split("/")[-1])
+            if base_lang in ("C", "C++", "JavaScript", "Python"):
+                body = canon.file_with_functions(base_lang, [max(2, rng.choice([12, 31, 45, 61, 75])) for _ in range(rng.randint(1, 3))], prefix=f"h{i}x")
+                lead = "" if base_lang == "Python" else rng.choice(["/** @code x @endcode */\n", "// @protocol Foo @end\n", "/* s = @\"str\" */\n", "",
+                                                                  "#import <Foundation/Foundation.h>\n", "// @implementation\n@interface X\n@end\n"])
+                out[rel] = (lead + body).encode()
+                continue
         if lang is None:
             out[rel] = data
             continue
